@@ -15,6 +15,7 @@
 (*  output oO creatable path  oBad path in a directory that does not exist *)
 (*  key    kK right key  kW well-formed wrong key  kShort(23) kBadChar     *)
 (*         kNoPad(24, no '=') kOnePad(24, one '=') kLong(28)               *)
+(*         kHigh (24 characters, one with the high bit set)                *)
 (*  modes  c2 c5 c100 c256 c260 cabc   h1 h3 h256                          *)
 (*  other  x unknown option   stray positional argument                    *)
 (***************************************************************************)
@@ -24,7 +25,7 @@ ModeTok == {"e", "d", "v", "V", "h", "le", "ld", "lv", "en", "dn", "vn"}
 ModeOf(t) == CASE t \in {"e", "le", "en"} -> "e" [] t \in {"d", "ld", "dn"} -> "d" [] t \in {"v", "lv", "vn"} -> "v"
                [] t = "V" -> "V" [] t = "h" -> "h"
 Tokens == ModeTok \cup {"n", "iF", "iE", "iMissing", "iLong", "iProc", "iNoArg", "oO", "oBad", "kK", "kW", "kShort", "kBadChar",
-                        "kNoPad", "kOnePad", "kLong", "c2", "c5", "c100", "c256", "c260", "cabc", "h1", "h3", "h256", "x", "stray"}
+                        "kNoPad", "kOnePad", "kLong", "kHigh", "c2", "c5", "c100", "c256", "c260", "cabc", "h1", "h3", "h256", "x", "stray"}
 S0 == [mode |-> "u", ct |-> FALSE, ht |-> FALSE, in |-> "none", out |-> "none", key |-> "none", quiet |-> FALSE, err |-> FALSE, may |-> FALSE]
 
 \* one token; the first offending token ends the parse (err)
@@ -37,7 +38,7 @@ Step(s, t) ==
   ELSE IF t = "iE" THEN [s EXCEPT !.in = "E"]
   ELSE IF t = "iLong" THEN [s EXCEPT !.in = "L"]
   ELSE IF t = "iProc" THEN [s EXCEPT !.in = "R"]
-  ELSE IF t \in {"iMissing", "iNoArg", "oBad", "kShort", "kBadChar", "kNoPad", "kOnePad", "kLong", "c5", "c100", "c256", "c260", "h3", "h256", "x"}
+  ELSE IF t \in {"iMissing", "iNoArg", "oBad", "kShort", "kBadChar", "kNoPad", "kOnePad", "kLong", "kHigh", "c5", "c100", "c256", "c260", "h3", "h256", "x"}
        THEN [s EXCEPT !.err = TRUE]
   ELSE IF t = "oO" THEN [s EXCEPT !.out = "O"]
   ELSE IF t = "kK" THEN [s EXCEPT !.key = "K"]
